@@ -34,6 +34,10 @@
 //!             r8..r15) hold the values, rip = 0x400000
 //!                                         -> B <nearby_registers of the candidate <good>> <index into NEARBY_REGISTER the confidence
 //!                                            was computed with | ->     (B ? .. when the candidate is missing)
+//!  N (<stream type>)*   (round 5) MinidumpInfo::new: a fixed dump with every stream minidump-synth can write (threads, names, exception,
+//!             modules, unloaded modules, memory, memory info, breakpad info, the Linux text streams); the directory entries of the
+//!             listed stream types are retyped to an unused type, i.e. those streams cannot be read
+//!                                         -> N ok | N err:<ProcessError>      (rendered when ok)
 //! A panic anywhere inside a case is answered `P;;<message>` by vharness::for_each_case.
 #[path = "../dumpspec.rs"]
 mod dumpspec;
@@ -607,6 +611,49 @@ fn run_args(t: &mut Toks) -> String {
     }
 }
 
+/// N case: see the header.
+fn run_info_new(t: &mut Toks) -> String {
+    let mut hidden: Vec<u32> = vec![];
+    while let Some(x) = t.opt() {
+        hidden.push(x.parse::<u64>().expect("stream type") as u32);
+    }
+    let r: Vec<(String, u64)> = vec![("rip".into(), 0x400010), ("rsp".into(), 0x10020), ("rbp".into(), 0x10030)];
+    let mut spec = Spec { cpu: "amd64".into(), os: "linux".into(), ..Default::default() };
+    spec.threads.push(ThreadSpec { id: 1, stack_base: 0x10000, stack: vec![0; 64], regs: Some(r.clone()) });
+    spec.threads.push(ThreadSpec { id: 2, stack_base: 0x20000, stack: vec![0; 32], regs: Some(r.clone()) });
+    spec.exc = Some(ExcSpec { tid: 1, code: 11, flags: 0, addr: 0x80400, nparams: 0, info0: 0, info1: 0, regs: Some(r) });
+    spec.modules.push(ModSpec { base: 0x400000, size: 0x1000, name: "/m/mod0".into(), sym: None, debug: None });
+    spec.unloaded.push(ModSpec { base: 0x600000, size: 0x1000, name: "/u/unl0".into(), sym: None, debug: None });
+    spec.meminfo.push((0x80000, 0x1000, 4));
+    spec.regions.push((0x400000, vec![0x48, 0x8b, 0x03]));
+    spec.names.push((1, "main".into()));
+    spec.breakpad = Some((2, 1));
+    spec.maps = Some(b"00400000-00401000 r-xp 00000000 00:00 0 /m/mod0\n".to_vec());
+    spec.limits = Some(b"Limit  Soft Limit  Hard Limit  Units\nMax cpu time  unlimited  unlimited  seconds\n".to_vec());
+    spec.status = Some(b"Name:\tx\nPid:\t42\n".to_vec());
+    spec.lsb = Some(b"DISTRIB_ID=x\n".to_vec());
+    spec.cpuinfo = Some(b"processor\t: 0\nmicrocode\t: 0x1f\n".to_vec());
+    spec.environ = Some(b"A=b\0".to_vec());
+    let mut bytes = build_dump(&spec);
+    let rd = |b: &[u8], o: usize| u32::from_le_bytes([b[o], b[o + 1], b[o + 2], b[o + 3]]);
+    let (count, dir) = (rd(&bytes, 8) as usize, rd(&bytes, 12) as usize);
+    for i in 0..count {
+        let o = dir + 12 * i;
+        if hidden.contains(&rd(&bytes, o)) {
+            bytes[o..o + 4].copy_from_slice(&(0x4d5a_0000u32 + i as u32).to_le_bytes());
+        }
+    }
+    let dump = Minidump::read(bytes).expect("read");
+    match process(&dump, &HashMap::new(), 0, None) {
+        Outcome::Ok(s) => {
+            render(&s);
+            "N ok".into()
+        }
+        Outcome::Err(e) => format!("N err:{}", e),
+        Outcome::Timeout => "N timeout".into(),
+    }
+}
+
 /// B case: see the header.
 fn run_nearby(t: &mut Toks) -> String {
     let good = t.u64();
@@ -700,6 +747,7 @@ fn run(line: &str) -> String {
             let spec = parse_spec(line.split_ascii_whitespace().skip(1));
             run_threads(&spec)
         }
+        "N" => run_info_new(&mut t),
         "B" => run_nearby(&mut t),
         "L" => run_limits(&mut t),
         "G" => run_guard(&mut t),
